@@ -412,9 +412,17 @@ extern "C" size_t LLVMFuzzerCustomMutator(uint8_t* data, size_t size, size_t max
       for (size_t k : {16, 18, 24, 28, 32, 36, 40, 42, 44, 46, 48, 50, 52, 54, 56, 58, 60, 62}) known.push_back(k);
       size_t shoff = is64 ? rd32(data, size, 0x28) : rd32(data, size, 0x20);
       size_t phoff = is64 ? rd32(data, size, 0x20) : rd32(data, size, 0x1c);
-      for (size_t base : {shoff, phoff})
-        if (base && base < size)
-          for (size_t k = 0; k < 256; k += 4) known.push_back(base + k);
+      // every 32-bit word (and so both halves of every 64-bit field) of every section and program header
+      size_t shnum = is64 ? (data[0x3c] | data[0x3d] << 8) : (data[0x30] | data[0x31] << 8);
+      size_t phnum = is64 ? (data[0x38] | data[0x39] << 8) : (data[0x2c] | data[0x2d] << 8);
+      size_t shent = is64 ? 64 : 40, phent = is64 ? 56 : 32;
+      if (shoff && shoff < size)
+        for (size_t k = 0; k < std::min<size_t>(shnum, 64) * shent && shoff + k + 4 <= size; k += 4) known.push_back(shoff + k);
+      if (phoff && phoff < size)
+        for (size_t k = 0; k < std::min<size_t>(phnum, 32) * phent && phoff + k + 4 <= size; k += 4) known.push_back(phoff + k);
+      // 64-bit fields start on 8-byte boundaries: prefer full-width writes there
+      if (is64 && next() % 2)
+        w = 8;
     }
     else if (size > 0x20 && (rd32(data, size, 0) == 0xfeedface || rd32(data, size, 0) == 0xfeedfacf ||
                              rd32(data, size, 0) == 0xcefaedfe || rd32(data, size, 0) == 0xcffaedfe ||
@@ -438,8 +446,10 @@ extern "C" size_t LLVMFuzzerCustomMutator(uint8_t* data, size_t size, size_t max
       uint64_t old = 0;
       for (int k = 0; k < w; k++) old |= (uint64_t) data[off + k] << (8 * k);
       uint64_t vals[] = {0, 1, size - 1, size, size + 1, 0x7fffffff, 0x80000000u, 0xffffffffu, old + 1, old - 1,
-                         size - off, 0xffff, old * 2, size / 2, 0x7fffffffffffffffULL};
-      uint64_t v = vals[next() % 15];
+                         size - off, 0xffff, old * 2, size / 2, 0x7fffffffffffffffULL,
+                         // values that make `base + offset + size` wrap around
+                         ~(uint64_t) 0, ~(uint64_t) 0xff, (uint64_t) 0 - size, (uint64_t) 0 - off, ~(uint64_t) 0 - old};
+      uint64_t v = vals[next() % 20];
       bool be = next() % 8 == 0;
       for (int k = 0; k < w; k++) data[off + (be ? w - 1 - k : k)] = (uint8_t) (v >> (8 * k));
       return size;
